@@ -986,7 +986,8 @@ def run(tier, seed):
     return chk.finish(
         rule="argument-list STRUCTURES from the documented grammar (positional values, special-character and aggregate keys, list/dict literals nested to depth 3, "
              "* / ** / ... spreads of variables and of literals at every level, filters with arguments, _() and nested-template strings, strings with quotes / "
-             "backslashes / ending in a backslash, flags, self-closing slash), each printed by the Python mirror of Spec.print in %d layouts (canonical; random "
+             "backslashes / ending in a backslash / inner white-space runs (two blanks, tab, line break, padding; in 20 %% of the structures forced next to a "
+             "positional or keyword translation+filter), flags, self-closing slash), each printed by the Python mirror of Spec.print in %d layouts (canonical; random "
              "layout tables: white-space runs incl. tab / newline / CR LF / FF at every insignificant position, optional trailing commas, white space around | and : "
              "and inside _( ); odd layouts in the other quote style where equivalent; the last two with the slash flipped) and rendered through {%% component %%} "
              "(observed at get_context_data) and a probe BaseNode (observed at render); %d documented-invalid combinations x 3 contexts x 2 tags; mutations of "
